@@ -170,9 +170,12 @@ def run_check(pid, tier, jobs, *, bounds, assumptions, stubs=(), outside=(), exp
     unsupported_reasons, extra = {}, {}
     not_exhausted = []
     strata = {}
+    cvc5 = {"sampled": 0, "agree": 0, "disagree": 0, "no_answer": 0}
     for r in main:
         if "machinery_error" in r:
             continue
+        for k in cvc5:
+            cvc5[k] += r.get("cvc5", {}).get(k, 0)
         st = strata.setdefault(r["name"].split("/pin")[0], {"jobs": 0, "paths": 0, "cpu_s": 0.0, "max_job_s": 0.0, "exhausted": True})
         st["jobs"] += 1
         st["paths"] += r["paths"]
@@ -264,6 +267,7 @@ def run_check(pid, tier, jobs, *, bounds, assumptions, stubs=(), outside=(), exp
         "paths": {k: agg[k] for k in ("paths", "ok", "infeasible", "cut", "unsupported", "reached")},
         "solver": {"engine": "z3 " + _z3_version(), "queries": agg["queries"], "solver_s": round(solver_s, 2),
                    "forks": agg["forks"], "unknown": agg["unknown"]},
+        "second_solver": dict(cvc5, note="every 100th end-of-path validity query (<= 12 per job) re-decided by the cvc5 1.0.3 binary on the SMT-LIB2 dump"),
         "functions_encoded": sorted(functions),
         "bounds": bounds,
         "outside_the_bound": list(outside),
